@@ -4,6 +4,10 @@ import WhVerif.Lemmas.C03
 import WhVerif.Lemmas.C05SolverCol
 import WhVerif.Lemmas.C05SolverPed
 import WhVerif.Lemmas.C05PipelineExample
+import WhVerif.Lemmas.C05Lik
+import WhVerif.Lemmas.C05LikSolver
+import WhVerif.Lemmas.C05Recomb
+import WhVerif.Lemmas.C05Table
 /-!
 # C05 — pedigree phasing is Mendelian-consistent and ordered paternal|maternal
 
@@ -420,5 +424,397 @@ example (tag : WhVerif.C04.Tag) : ∀ r ∈ (exStage tag).records, ∀ c, c < (e
     r.pos = posAt (exStage tag).pos c → ∀ ind, ind < (exStage tag).I.nind → ∀ call g,
     WhVerif.C04.clookup r.calls ((exStage tag).names.getD ind "") = some call →
     trustedGeno (exStage tag).I ind c = some g → WhVerif.C04.gcode call.gt = genoAlleles g := exStage_link tag
+
+end WhVerif.Props.C05
+
+/-! ## genotype likelihoods (`--distrust-genotypes`) and arbitrary recombination costs
+
+Which clauses of C05 survive when the hard genotype constraint is replaced by phred likelihood costs
+(`Model/C05Lik.lean`: every allele assignment is a candidate, its cost is the sum of the members' genotype costs), and
+for which recombination costs the statements hold (all: `I.recomb` is an arbitrary vector in every solver-level theorem
+of this file, old and new; `Model/C05Recomb.lean` models the vector `phase.py` actually computes). -/
+namespace WhVerif.Props.C05
+open WhVerif.C05 WhVerif.C05.L
+
+/-- **column level, trusted genotypes, tie flags included**: in what `get_alleles` returns, the child's entry on haplotype
+0 IS the father's entry on the haplotype selected by transmission bit `2k` — the same allele or the same tie flag 3 — and
+its entry on haplotype 1 is the mother's selected by bit `2k+1`; any pedigree, any transmission value, any read costs
+(`mendel_ordered` is the statement about single assignments, `pedigree_output_mendelian` its `≠ 3` form on the solver) -/
+theorem child_entry_is_parent_entry (ped : Ped) (t : Nat) (gts : List Gt) (cp : PartCosts) (res : List (Nat × Nat))
+    (h : getAlleles ped t gts cp = some res) (c k f m c' : Nat)
+    (hk : tripleIndex ped c = some k) (htr : ped.triples[k]? = some (f, m, c'))
+    (hc : c < ped.size) (hf : f < ped.size) (hm : m < ped.size) :
+    ∃ ec ef em, res[c]? = some ec ∧ res[f]? = some ef ∧ res[m]? = some em ∧
+      ec.1 = (if t.testBit (2 * k) then ef.1 else ef.2) ∧
+      ec.2 = (if t.testBit (2 * k + 1) then em.1 else em.2) ∧
+      (ec.1 = 3 ∨ ec.1 ≤ 1) ∧ (ec.2 = 3 ∨ ec.2 ≤ 1) := by
+  obtain ⟨best, hbest, hres⟩ := getAlleles_spec h
+  obtain ⟨a0, a1, _, hia, _, _⟩ := compatible_at (mem_admissible.mp hbest).2 hc
+  have hpc : (hapToPartition ped t c).isSome = true := by
+    unfold indivAlleles at hia
+    cases hp : hapToPartition ped t c with
+    | none => rw [hp] at hia; cases hia
+    | some _ => rfl
+  exact result_child_entry ped t _ _ best res hres c k f m c' hk htr hc hf hm hpc
+
+/-- non-vacuity: all three members 0/1, transmission value 0 (second haplotypes).  Without reads every entry is a tie
+flag — the child's as well as the selected parental ones; with a REF read on the father's first haplotype everything is
+definite and the child `1|0` carries the father's second and the mother's second allele -/
+example : getAlleles ⟨3, [(0, 1, 2)]⟩ 0 [[1, 0], [1, 0], [1, 0]] [] = some [(3, 3), (3, 3), (3, 3)] ∧
+    getAlleles ⟨3, [(0, 1, 2)]⟩ 0 [[1, 0], [1, 0], [1, 0]] [(0, 9), (0, 0), (0, 0), (0, 0)]
+      = some [(0, 1), (1, 0), (1, 0)] := by decide
+
+/-- **likelihood variant, every candidate assignment**: whatever allele assignment a column's solution uses — with
+likelihoods every bit vector is a candidate of finite cost — the child's allele pair is (allele of the father's
+haplotype selected by bit `2k`, allele of the mother's haplotype selected by bit `2k+1`); no genotype hypothesis at all -/
+theorem lik_every_assignment_transmits (ped : Ped) (t asg : Nat) (c k f m c' : Nat)
+    (hk : tripleIndex ped c = some k) (htr : ped.triples[k]? = some (f, m, c'))
+    (ca : Nat × Nat) (hca : indivAlleles ped t asg c = some ca) :
+    ∃ fa ma, indivAlleles ped t asg f = some fa ∧ indivAlleles ped t asg m = some ma ∧
+      ca.1 = (if t.testBit (2 * k) then fa.1 else fa.2) ∧ ca.2 = (if t.testBit (2 * k + 1) then ma.1 else ma.2) ∧
+      ca.1 ≤ 1 ∧ ca.2 ≤ 1 := by
+  obtain ⟨fa, ma, hfa, hma, h0, h1⟩ := indivAlleles_child ped t asg c k f m c' hk htr ca hca
+  refine ⟨fa, ma, hfa, hma, h0, h1, ?_, ?_⟩
+  · unfold indivAlleles at hca
+    cases hp : hapToPartition ped t c with
+    | none => rw [hp] at hca; cases hca
+    | some p => rw [hp] at hca; cases hca; exact alleleOf_le _ _
+  · unfold indivAlleles at hca
+    cases hp : hapToPartition ped t c with
+    | none => rw [hp] at hca; cases hca
+    | some p => rw [hp] at hca; cases hca; exact alleleOf_le _ _
+
+example : indivAlleles ⟨3, [(0, 1, 2)]⟩ 1 0b0110 2 = some (0, 0) ∧ indivAlleles ⟨3, [(0, 1, 2)]⟩ 1 0b0110 0 = some (0, 1)
+    ∧ indivAlleles ⟨3, [(0, 1, 2)]⟩ 1 0b0110 1 = some (1, 0) := by decide
+
+/-- **likelihood variant, `get_alleles`**: the result exists for every well-formed column (no "Mendelian conflict"
+exception can arise from the column), and the child's entry on haplotype 0 IS the father's entry on the haplotype
+selected by bit `2k` (allele or tie flag), on haplotype 1 the mother's selected by bit `2k+1` — any pedigree, any
+likelihoods, any read costs, any transmission value -/
+theorem lik_child_entry_is_parent_entry (ped : Ped) (t : Nat) (gls : List Gl) (cp : PartCosts)
+    (res : List (Nat × Nat)) (h : getAllelesLik ped t gls cp = some res) (c k f m c' : Nat)
+    (hk : tripleIndex ped c = some k) (htr : ped.triples[k]? = some (f, m, c'))
+    (hc : c < ped.size) (hf : f < ped.size) (hm : m < ped.size) :
+    ∃ ec ef em, res[c]? = some ec ∧ res[f]? = some ef ∧ res[m]? = some em ∧
+      ec.1 = (if t.testBit (2 * k) then ef.1 else ef.2) ∧
+      ec.2 = (if t.testBit (2 * k + 1) then em.1 else em.2) ∧
+      (ec.1 = 3 ∨ ec.1 ≤ 1) ∧ (ec.2 = 3 ∨ ec.2 ≤ 1) := by
+  obtain ⟨best, hbest, hres⟩ := getAllelesLik_spec h
+  exact result_child_entry ped t _ _ best res hres c k f m c' hk htr hc hf hm (assignmentsLik_indiv hbest c hc)
+
+/-- `get_alleles` with likelihoods never raises: three likelihoods per member and a terminating partition recursion -/
+theorem lik_get_alleles_defined (ped : Ped) (t : Nat) (gls : List Gl) (cp : PartCosts)
+    (hp : ∀ i, i < ped.size → (hapToPartition ped t i).isSome = true)
+    (hg : ∀ i, i < ped.size → ∃ gl, gls[i]? = some gl ∧ 3 ≤ gl.length) :
+    ∃ res, getAllelesLik ped t gls cp = some res :=
+  getAllelesLik_isSome ped t gls cp hp hg
+
+/-- non-vacuity (both theorems): the called genotypes are father 0/0, mother 0/1, child 1/1 — a Mendelian CONFLICT, which
+the trusted variant refuses — with likelihoods 0 at the call and 30 elsewhere and an ALT read (weight 40) on the father's
+first haplotype; transmission value 0.  The solver settles on father 1/1, and the child's paternal entry equals the
+father's entry on the selected (second) haplotype.  Second case: the read sits on the father's second haplotype instead;
+his first haplotype is a tie, the child's entries are still the selected parental ones -/
+example : getAlleles ⟨3, [(0, 1, 2)]⟩ 0 [[0, 0], [1, 0], [1, 1]] [(40, 0), (0, 0), (0, 0), (0, 0)] = none ∧
+    getAllelesLik ⟨3, [(0, 1, 2)]⟩ 0 [[0, 30, 30], [30, 0, 30], [30, 30, 0]] [(40, 0), (0, 0), (0, 0), (0, 0)]
+      = some [(1, 1), (0, 1), (1, 1)] ∧
+    getAllelesLik ⟨3, [(0, 1, 2)]⟩ 0 [[0, 30, 30], [30, 0, 30], [30, 30, 0]] [(0, 0), (40, 0), (0, 0), (0, 9)]
+      = some [(3, 1), (0, 1), (1, 1)] := by decide
+
+/-- **no Mendelian conflict among the OUTPUT genotypes** (likelihood variant; the writer replaces a call's genotype by
+`{a0, a1}` when both super-read alleles are definite): if the six entries of a trio in a column are definite, the
+genotypes written for father, mother and child pass `mendelian_conflict` — whatever the input genotypes were -/
+theorem lik_output_genotypes_mendelian (ped : Ped) (t : Nat) (gls : List Gl) (cp : PartCosts)
+    (res : List (Nat × Nat)) (h : getAllelesLik ped t gls cp = some res) (c k f m c' : Nat)
+    (hk : tripleIndex ped c = some k) (htr : ped.triples[k]? = some (f, m, c'))
+    (hc : c < ped.size) (hf : f < ped.size) (hm : m < ped.size)
+    (ec ef em : Nat × Nat) (hec : res[c]? = some ec) (hef : res[f]? = some ef) (hem : res[m]? = some em)
+    (dc : ec.1 ≤ 1 ∧ ec.2 ≤ 1) (df : ef.1 ≤ 1 ∧ ef.2 ≤ 1) (dm : em.1 ≤ 1 ∧ em.2 ≤ 1) (gic gif gim : Gt) :
+    mendelianConflict (outputGt gim em) (outputGt gif ef) (outputGt gic ec) = some false ∧
+      ec.1 ∈ outputGt gif ef ∧ ec.2 ∈ outputGt gim em := by
+  obtain ⟨ec', ef', em', h1, h2, h3, e0, e1, _, _⟩ :=
+    lik_child_entry_is_parent_entry ped t gls cp res h c k f m c' hk htr hc hf hm
+  rw [hec] at h1; rw [hef] at h2; rw [hem] at h3
+  cases h1; cases h2; cases h3
+  have a0 : ec.1 = ef.1 ∨ ec.1 = ef.2 := by rw [e0]; split <;> simp
+  have a1 : ec.2 = em.1 ∨ ec.2 = em.2 := by rw [e1]; split <;> simp
+  refine ⟨outputGt_no_conflict gic gif gim ec ef em dc df dm a0 a1, ?_, ?_⟩
+  · have : outputGt gif ef = mkGt2 ef.1 ef.2 := by unfold outputGt; simp [df.1, df.2]
+    rw [this]
+    rcases a0 with e | e <;> rw [e]
+    · exact mem_mkGt2_left _ _
+    · exact mem_mkGt2_right _ _
+  · have : outputGt gim em = mkGt2 em.1 em.2 := by unfold outputGt; simp [dm.1, dm.2]
+    rw [this]
+    rcases a1 with e | e <;> rw [e]
+    · exact mem_mkGt2_left _ _
+    · exact mem_mkGt2_right _ _
+
+/-- non-vacuity: the conflicting input above; output genotypes father 1/1, mother 0/1, child 1/1 -/
+example : (outputGt [0, 0] (1, 1), outputGt [1, 0] (0, 1), outputGt [1, 1] (1, 1)) = ([1, 1], [1, 0], [1, 1]) ∧
+    mendelianConflict [1, 0] [1, 1] [1, 1] = some false ∧ mendelianConflict [1, 0] [0, 0] [1, 1] = some true := by decide
+
+/-- the definiteness hypothesis of `lik_output_genotypes_mendelian` is needed — **a tie flag on a parent's untransmitted
+haplotype leaves the parent's INPUT genotype in the output while the child's genotype is rewritten**: father called 1/1
+with likelihoods `[40, 30, 0]`, REF evidence of weight 90 on his first haplotype (his own read and/or the child's: the
+child's paternal haplotype is the same partition under transmission value 3) and of weight 10 on his second; mother 0/0,
+child called 0/1 with likelihoods `[0, 30, 30]`.  `get_alleles`: father `(0, tie)`, mother `0|0`, child `0|0` ⇒ the writer
+keeps father 1/1 and rewrites the child to 0/0: a Mendelian conflict in the OUTPUT genotypes.  (Outside the property
+text, which is about trusted genotypes; observation in notes/C05.md.) -/
+example :
+    getAllelesLik ⟨3, [(0, 1, 2)]⟩ 3 [[40, 30, 0], [0, 30, 40], [0, 30, 30]] [(0, 90), (0, 10), (0, 0), (0, 0)]
+      = some [(0, 3), (0, 0), (0, 0)] ∧
+    (outputGt [1, 1] (0, 3), outputGt [0, 0] (0, 0), outputGt [1, 0] (0, 0)) = ([1, 1], [0, 0], [0, 0]) ∧
+    mendelianConflict [0, 0] [1, 1] [0, 0] = some true := by decide
+
+end WhVerif.Props.C05
+
+/-! ### the same on the SOLVER model: any genotype costs, any recombination costs -/
+namespace WhVerif.Props.C05
+open WhVerif.C01 WhVerif.C05.Solver WhVerif.C05P
+
+/-- **solver level, ANY genotype cost table (trusted, phred likelihoods, mixed) and ANY recombination cost vector**:
+`WF`, `PedOK`, the solver returned `(β, τ)`.  In every column `c` the super-read entries `L` = `get_alleles` under the
+witness exist, and for every trio `(f, m, ch)` = `trios[k]`: the child's entry on haplotype 0 EQUALS the father's entry on
+the haplotype selected by transmission bit `2k` of `τ_c` — the same allele or the same tie flag —, its entry on haplotype 1
+equals the mother's selected by bit `2k+1`; entries are 0, 1 or 3; an entry without tie flag is the allele EVERY
+cost-optimal assignment of the column (one exists) puts on that haplotype.  `pedigree_output_mendelian` is the special
+case of trusted genotypes (which adds: the alleles are alleles of the INPUT genotypes). -/
+theorem pedigree_output_mendelian_any_costs (I : Inst) (hwf : WF I) (hok : PedOK I) (β : List Bool) (τ : List Nat)
+    (hw : witness I = some (β, τ)) (k f m ch : Nat) (htr : I.trios[k]? = some (f, m, ch))
+    (c : Nat) (hc : c < I.ncols) :
+    ∃ L, getAlleles I c (restrict β (I.activeAt c)) (τ.getD c 0) = some L ∧ L.length = I.nind ∧
+      reported L ch 0 = reported L f (selHap (τ.getD c 0) (2 * k)) ∧
+      reported L ch 1 = reported L m (selHap (τ.getD c 0) (2 * k + 1)) ∧
+      (∀ ind h, ind < I.nind → (h = 0 ∨ h = 1) → reported L ind h = 0 ∨ reported L ind h = 1 ∨ reported L ind h = 3) ∧
+      (∀ ag, IsOptAssign I c (restrict β (I.activeAt c)) (τ.getD c 0) ag → ∀ ind h, ind < I.nind → (h = 0 ∨ h = 1) →
+        reported L ind h ≠ 3 → bitOf ag.1 (h2p I (τ.getD c 0) ind h) = reported L ind h) ∧
+      (∃ ag, IsOptAssign I c (restrict β (I.activeAt c)) (τ.getD c 0) ag) :=
+  column_transmitted I hwf hok β τ hw k f m ch htr c hc
+
+/-- **no Mendelian conflict among the output genotypes, solver level**: same setting; if the six super-read alleles of
+the trio in column `c` carry no tie flag, then the child's first allele is one of the father's two, its second one of the
+mother's two, and the genotypes `{a0, a1}` the writer puts into the VCF for father, mother and child pass
+`mendelian_conflict` — with likelihood costs the input genotypes may well have been in conflict. -/
+theorem pedigree_output_genotypes_mendelian (I : Inst) (hwf : WF I) (hok : PedOK I) (β : List Bool) (τ : List Nat)
+    (hw : witness I = some (β, τ)) (k f m ch : Nat) (htr : I.trios[k]? = some (f, m, ch))
+    (c : Nat) (hc : c < I.ncols) :
+    ∃ L, getAlleles I c (restrict β (I.activeAt c)) (τ.getD c 0) = some L ∧
+      ((∀ h, (h = 0 ∨ h = 1) → reported L ch h ≠ 3 ∧ reported L f h ≠ 3 ∧ reported L m h ≠ 3) →
+        (reported L ch 0 = reported L f 0 ∨ reported L ch 0 = reported L f 1) ∧
+        (reported L ch 1 = reported L m 0 ∨ reported L ch 1 = reported L m 1) ∧
+        WhVerif.C05.mendelianConflict
+          (WhVerif.C05.outputGt [] (reported L m 0, reported L m 1))
+          (WhVerif.C05.outputGt [] (reported L f 0, reported L f 1))
+          (WhVerif.C05.outputGt [] (reported L ch 0, reported L ch 1)) = some false) := by
+  obtain ⟨L, hL, _, e0, e1, hr, _, _⟩ := column_transmitted I hwf hok β τ hw k f m ch htr c hc
+  refine ⟨L, hL, ?_⟩
+  intro hdef
+  obtain ⟨hfi, hmi, hci⟩ := hok.members _ (List.mem_of_getElem? htr)
+  simp only at hfi hmi hci
+  have le1 : ∀ ind h, ind < I.nind → (h = 0 ∨ h = 1) → reported L ind h ≠ 3 → reported L ind h ≤ 1 := by
+    intro ind h hi hh h3
+    rcases hr ind h hi hh with e | e | e
+    · omega
+    · omega
+    · exact absurd e h3
+  have a0 : reported L ch 0 = reported L f 0 ∨ reported L ch 0 = reported L f 1 := by
+    rw [e0]; rcases selHap_cases (τ.getD c 0) (2 * k) with e | e <;> rw [e] <;> simp
+  have a1 : reported L ch 1 = reported L m 0 ∨ reported L ch 1 = reported L m 1 := by
+    rw [e1]; rcases selHap_cases (τ.getD c 0) (2 * k + 1) with e | e <;> rw [e] <;> simp
+  have d0 := hdef 0 (Or.inl rfl)
+  have d1 := hdef 1 (Or.inr rfl)
+  exact ⟨a0, a1, WhVerif.C05.L.outputGt_no_conflict [] [] [] _ _ _
+    ⟨le1 ch 0 hci (Or.inl rfl) d0.1, le1 ch 1 hci (Or.inr rfl) d1.1⟩
+    ⟨le1 f 0 hfi (Or.inl rfl) d0.2.1, le1 f 1 hfi (Or.inr rfl) d1.2.1⟩
+    ⟨le1 m 0 hmi (Or.inl rfl) d0.2.2, le1 m 1 hmi (Or.inr rfl) d1.2.2⟩ a0 a1⟩
+
+/-- non-vacuity of both: a trio with phred likelihoods everywhere (`geno` all `some`), called genotypes in column 0 are
+father 0/0, mother 0/1, child 1/1 — a Mendelian conflict —, one read of the father (ALT, weight 40, then REF) and one of
+the child; recombination costs `[0, 4]`.  The solver returns a witness (cost 30); in column 0 it makes the father 1|1 and
+the child 1|1, in column 1 father 0|0, mother 0|1, child 0|1: all entries definite, output genotypes conflict-free -/
+def exLik : Inst :=
+  { ncols := 2
+    reads := [ { ind := 0, first := 0, last := 1, entries := [(0, 1, 40), (1, 0, 9)] },
+               { ind := 2, first := 0, last := 1, entries := [(0, 1, 7), (1, 1, 5)] } ]
+    nind := 3
+    trios := [(0, 1, 2)]
+    geno := [ [[some 0, some 30, some 30], [some 0, some 3, some 30]],
+              [[some 30, some 0, some 30], [some 30, some 0, some 30]],
+              [[some 30, some 30, some 0], [some 30, some 0, some 30]] ]
+    recomb := [0, 4] }
+
+example : WF exLik ∧ PedOK exLik ∧ witness exLik = some ([false, true], [0, 0]) ∧ dpCost exLik = some 30 ∧
+    solverColumns exLik = some [[(1, 1), (0, 1), (1, 1)], [(0, 0), (0, 1), (0, 1)]] := by
+  refine ⟨⟨?_⟩, pedOK_trio exLik 0 1 2 rfl (by decide) (by decide) (by decide) (by decide) (by decide),
+    by decide +kernel, by decide +kernel, by decide +kernel⟩
+  intro r1 r2 h1 h2
+  have hall : ∀ r2, r2 < 2 → ∀ r1, r1 ≤ r2 → (exLik.read r1).first ≤ (exLik.read r2).first := by decide
+  exact hall r2 h2 r1 h1
+
+end WhVerif.Props.C05
+
+/-! ## the recombination cost vector (`Model/C05Recomb.lean`)
+
+Every solver-level theorem above quantifies over an arbitrary `I.recomb`.  What follows is about the vector `phase.py`
+computes.  Float stage (`floatOps`): compared with `/repo` bit for bit by the check, not reasoned about.  Integer stage:
+proved for every arithmetic, respectively every `Lawful` one (`<` a strict weak order, the rounded phred value antitone
+in the distance — tested on the float instance by the check). -/
+namespace WhVerif.Props.C05
+open WhVerif.C05.Recomb
+
+/-- both cost computers return `max(1, len(positions))` entries, the first is 0 (the solver never reads it) — any
+arithmetic, any genetic map / rate, whenever no exception is raised -/
+theorem recomb_vector_shape {α : Type} (A : Ops α) (positions : List Int) (r : List Int) :
+    (∀ gm, recombinationCostMap A gm positions = .ok r → r.length = max 1 positions.length ∧ r[0]? = some 0) ∧
+    (∀ rate, uniformRecombinationMap A rate positions = .ok r → r.length = max 1 positions.length ∧ r[0]? = some 0) :=
+  ⟨fun gm h => recombinationCostMap_shape A gm positions r h,
+   fun rate h => let ⟨h1, h2, _⟩ := uniformRecombinationMap_spec A rate positions r h; ⟨h1, h2⟩⟩
+
+/-- **uniform map formula**: entry `i+1` is `round(centimorgen_to_phred((positions[i+1] - positions[i]) · 1e-6 · rate))`;
+it depends on the difference of the two positions only, so shifting all positions changes nothing (exceptions included) -/
+theorem uniform_map_formula {α : Type} (A : Ops α) (rate : α) (positions : List Int) :
+    (∀ r, uniformRecombinationMap A rate positions = .ok r →
+      ∀ i p q, positions[i]? = some p → positions[i + 1]? = some q →
+        ∃ k, r[i + 1]? = some k ∧ A.phredRound (A.mul (A.mul (A.ofInt (q - p)) A.micro) rate) = .ok k) ∧
+    (∀ s : Int, uniformRecombinationMap A rate (positions.map (· + s)) = uniformRecombinationMap A rate positions) :=
+  ⟨fun r h => (uniformRecombinationMap_spec A rate positions r h).2.2,
+   fun s => uniformRecombinationMap_shift A rate positions s⟩
+
+/-- **genetic-map costs: clamp, cap, monotone**.  Entry `i+1` is the rounded phred value of
+`max(cum[i+1] - cum[i], 1e-10)`.  In a lawful arithmetic with `cap = round(centimorgen_to_phred(1e-10))`: every entry is
+`≤ cap`; a genetic distance below `1e-10` — zero (`cum[i+1] = cum[i]`) or negative (a decreasing map) — costs exactly
+`cap`; and of two intervals the one with the larger genetic distance never costs more. -/
+theorem recomb_cost_capped_and_antitone {α : Type} (A : Ops α) (hA : Lawful A) (cap : Int)
+    (hcap : A.phredRound A.minDist = .ok cap) (cum : List α) (r : List Int) (h : costsFromCum A cum = .ok r) :
+    (∀ i a b, cum[i]? = some a → cum[i + 1]? = some b → ∃ k, r[i + 1]? = some k ∧ k ≤ cap ∧
+      (A.lt (A.sub b a) A.minDist = true → k = cap)) ∧
+    (∀ i j a b a' b' k k', cum[i]? = some a → cum[i + 1]? = some b → cum[j]? = some a' → cum[j + 1]? = some b' →
+      r[i + 1]? = some k → r[j + 1]? = some k' → A.le (A.sub b a) (A.sub b' a') → k' ≤ k) := by
+  obtain ⟨_, _, hent⟩ := costsFromCum_spec A cum r h
+  constructor
+  · intro i a b ha hb
+    obtain ⟨k, hk, hp⟩ := hent i a b ha hb
+    obtain ⟨h1, h2⟩ := clamped_cost_le_cap A hA cap hcap _ k hp
+    exact ⟨k, hk, h1, h2⟩
+  · intro i j a b a' b' k k' ha hb ha' hb' hk hk' hle
+    obtain ⟨k1, hk1, hp1⟩ := hent i a b ha hb
+    obtain ⟨k2, hk2, hp2⟩ := hent j a' b' ha' hb'
+    rw [hk] at hk1; rw [hk'] at hk2; cases hk1; cases hk2
+    exact clamped_cost_antitone A hA _ _ hle k k' hp1 hp2
+
+/-- zero genetic distance costs the cap (lawful arithmetic with `x - x < 1e-10`) -/
+theorem recomb_zero_distance_costs_cap {α : Type} (A : Ops α) (hA : LawfulArith A) (cap : Int)
+    (hcap : A.phredRound A.minDist = .ok cap) (cum : List α) (r : List Int) (h : costsFromCum A cum = .ok r)
+    (i : Nat) (a : α) (ha : cum[i]? = some a) (hb : cum[i + 1]? = some a) : r[i + 1]? = some cap := by
+  obtain ⟨k, hk, _, hz⟩ := (recomb_cost_capped_and_antitone A hA.toLawful cap hcap cum r h).1 i a a ha hb
+  rw [hk, hz (hA.sub_self_lt_min a)]
+
+/-- uniform map in a lawful arithmetic, non-negative rate: the larger the physical distance the smaller (or equal) the
+cost -/
+theorem uniform_cost_antitone_in_distance {α : Type} (A : Ops α) (hA : LawfulArith A) (rate : α)
+    (hr : A.le (A.ofInt 0) rate) (hmicro : A.le (A.ofInt 0) A.micro) (d d' : Int) (h : d ≤ d') (k k' : Int)
+    (hk : A.phredRound (A.mul (A.mul (A.ofInt d) A.micro) rate) = .ok k)
+    (hk' : A.phredRound (A.mul (A.mul (A.ofInt d') A.micro) rate) = .ok k') : k' ≤ k :=
+  uniform_cost_antitone A hA rate hr hmicro d d' h k k' hk hk'
+
+/-- non-vacuity: the integer instance `intOps` (`cost(d) = 121 - min(d, 118)`, `minDist = 1`) is lawful; a map with a flat
+second half: the intervals inside the flat part cost the cap 120 -/
+example : LawfulArith intOps ∧ intOps.phredRound intOps.minDist = .ok 120 ∧
+    cumulativeDistances intOps #[⟨0, 0⟩, ⟨100, 50⟩, ⟨200, 50⟩] [10, 30, 120, 180, 300] = .ok [5, 15, 50, 50, 50] ∧
+    recombinationCostMap intOps #[⟨0, 0⟩, ⟨100, 50⟩, ⟨200, 50⟩] [10, 30, 120, 180, 300] = .ok [0, 111, 86, 120, 120] ∧
+    uniformRecombinationMap intOps 2 [10, 13, 40, 400] = .ok [0, 115, 67, 3] ∧
+    uniformRecombinationMap intOps 2 [10, 10] = .error "ValueError" :=
+  ⟨intOps_lawful, rfl, rfl, rfl, rfl, rfl⟩
+
+end WhVerif.Props.C05
+
+/-! ## the seam "constraint table ↔ input VCF", narrowed (`Model/C05Table.lean`)
+
+`pedigree_vcf_mendelian_input_gt` assumes `hlink`: the solver's trusted genotype of a member in column `c` is the member's
+call in the input record at that column's position.  The stage that produces the constraint table — `find_phaseable_variants`
+(missing genotypes, `mendelian_conflict`, homozygous variants), `subset_rows_by_position(accessible_positions)` with its
+assertion, `create_pedigree` → `Pedigree.add_individual(genotypes_of(sample))`, the column cost computer's genotype test —
+is now modelled (`constraintTable`) and `hlink` is PROVED from it; what remains assumed is the VCF reader alone
+(`hreader`: the VariantTable's genotype of a member at a variant has the alleles of the record's call). -/
+namespace WhVerif.Props.C05
+open WhVerif.C01 WhVerif.C05.Solver WhVerif.C05P WhVerif.C05 WhVerif.C05.L
+open WhVerif.C02P (posAt biallelic)
+
+/-- `subset_rows_by_position` + assertion: with strictly increasing variant positions and accessible positions the kept
+rows are exactly the accessible positions in order, and every kept row passed `find_phaseable_variants` (no missing
+genotype, no Mendelian conflict in any trio, heterozygous in some member unless `include_homozygous`) -/
+theorem constraint_rows_are_accessible_positions (tab : GtTable) (trios : List (Nat × Nat × Nat)) (incl : Bool)
+    (varPos acc rows : List Nat) (hpos : varPos.Pairwise (· < ·)) (hnv : varPos.length = nVariants tab)
+    (hacc : acc.Pairwise (· < ·))
+    (h : subsetRows varPos (findPhaseableVariants tab trios incl).2 acc = some rows) :
+    rows.map (varPos.getD · 0) = acc ∧
+    ∀ i ∈ rows, missingAt tab i = false ∧ conflictAt tab trios i = false ∧ (incl = true ∨ hetAt tab i = true) := by
+  have hkeep : (findPhaseableVariants tab trios incl).2.Pairwise (· < ·) := by
+    unfold findPhaseableVariants
+    exact List.Pairwise.filter _ List.pairwise_lt_range
+  have hk : ∀ i ∈ (findPhaseableVariants tab trios incl).2, i < varPos.length := by
+    intro i hi; rw [hnv]; exact (mem_keep.mp hi).1
+  obtain ⟨h1, h2⟩ := subsetRows_positions varPos _ acc rows hkeep hk hpos hacc h
+  refine ⟨h1, fun i hi => ?_⟩
+  have hr := (mem_keep.mp (h2 i hi)).2
+  obtain ⟨hm, hc⟩ := retained_spec hr
+  refine ⟨hm, hc, ?_⟩
+  unfold retained at hr
+  simp only [Bool.and_eq_true, Bool.or_eq_true] at hr
+  exact hr.1.1
+
+/-- **end to end against the INPUT records, seam narrowed to the VCF reader**: as `pedigree_vcf_mendelian_input_gt`, with
+`hlink` replaced by: the instance's constraint table is `buildGeno tab rows` for the rows `subset_rows_by_position` keeps of
+the phasable variants of the family's genotype table `tab` (variant positions `varPos` strictly increasing; `S.pos` are the
+accessible positions), and `hreader`: `tab`'s genotype of member `ind` at variant `i` has the alleles of the call of
+`names[ind]` in the record at `varPos[i]`. -/
+theorem pedigree_vcf_mendelian_input_table (S : Stage) (hwf : WF S.I) (hok : PedOK S.I) (htrust : Trusted S.I)
+    (hin : PedPipelineOk S) (β : List Bool) (τ : List Nat) (hw : witness S.I = some (β, τ))
+    (comps : List (Nat × Nat)) (hcomps : components S = .ok comps)
+    (k f m ch : Nat) (htr : S.I.trios[k]? = some (f, m, ch))
+    (tab : GtTable) (ftrios : List (Nat × Nat × Nat)) (incl : Bool) (varPos rows : List Nat)
+    (hpos : varPos.Pairwise (· < ·)) (hnv : varPos.length = nVariants tab)
+    (hsub : subsetRows varPos (findPhaseableVariants tab ftrios incl).2 S.pos = some rows)
+    (hgeno : S.I.geno = buildGeno tab rows)
+    (hreader : ∀ r ∈ S.records, ∀ i, i < varPos.length → r.pos = varPos.getD i 0 → ∀ ind, ind < S.I.nind → ∀ call,
+      WhVerif.C04.clookup r.calls (S.names.getD ind "") = some call →
+      WhVerif.C04.gcode call.gt = WhVerif.C04.sortNat (gtAt tab ind i)) :
+    ∃ rws, pipeline S = some rws ∧
+      ∀ row ∈ rws, ∀ j ph, S.header[j]? = some (S.names.getD ch "") → samplePhase row j = some ph →
+        ∃ a b, ph.alleles = [some a, some b] ∧
+          ∀ r ∈ S.records, r.pos = row.pos → ∀ cf cm,
+            WhVerif.C04.clookup r.calls (S.names.getD f "") = some cf →
+            WhVerif.C04.clookup r.calls (S.names.getD m "") = some cm →
+            a ∈ WhVerif.C04.gcode cf.gt ∧ b ∈ WhVerif.C04.gcode cm.gt :=
+  pedigree_vcf_mendelian_input_gt S hwf hok htrust hin β τ hw comps hcomps k f m ch htr
+    (hlink_of_table S hin tab ftrios incl varPos rows hpos hnv hsub hgeno hreader)
+
+/-- non-vacuity: the family table behind `exPed` — three variants at 100, 150, 200; the one at 150 is a Mendelian conflict
+(0/0 × 0/0 → 0/1) and is dropped by `find_phaseable_variants`; accessible positions 100 and 200 ⇒ rows `[0, 2]`, the
+constraint table is exactly `exPed.geno`, and the table agrees with the calls of `exRecords` -/
+def exTab : GtTable := [[[1, 0], [0, 0], [1, 0]], [[0, 0], [0, 0], [1, 0]], [[1, 0], [1, 0], [1, 0]]]
+
+def exReaderOk (r : WhVerif.C04.Record) (i ind : Nat) : Bool :=
+  match WhVerif.C04.clookup r.calls (["dad", "mom", "kid"].getD ind "") with
+  | some call => WhVerif.C04.gcode call.gt == WhVerif.C04.sortNat (gtAt exTab ind i)
+  | none => true
+
+example (tag : WhVerif.C04.Tag) :
+    constraintTable exTab [(0, 1, 2)] false [100, 150, 200] (exStage tag).pos = some ([0, 2], (exStage tag).I.geno) ∧
+    [100, 150, 200].Pairwise (· < ·) ∧ [100, 150, 200].length = nVariants exTab ∧
+    (∀ r ∈ (exStage tag).records, ∀ i, i < [100, 150, 200].length → r.pos = [100, 150, 200].getD i 0 →
+      ∀ ind, ind < (exStage tag).I.nind → ∀ call,
+      WhVerif.C04.clookup r.calls ((exStage tag).names.getD ind "") = some call →
+      WhVerif.C04.gcode call.gt = WhVerif.C04.sortNat (gtAt exTab ind i)) := by
+  have h0 : constraintTable exTab [(0, 1, 2)] false [100, 150, 200] [100, 200] = some ([0, 2], exPed.geno) := by decide
+  refine ⟨h0, by decide, by decide, ?_⟩
+  have hall : ∀ r ∈ exRecords, ∀ i, i < 3 → ∀ ind, ind < 3 → r.pos = [100, 150, 200].getD i 0 → exReaderOk r i ind = true := by
+    decide +kernel
+  intro r hr i hi hp ind hind call hcall
+  have := hall r hr i hi ind hind hp
+  have h1 : WhVerif.C04.clookup r.calls (["dad", "mom", "kid"].getD ind "") = some call := hcall
+  unfold exReaderOk at this
+  rw [h1] at this
+  exact beq_iff_eq.mp this
 
 end WhVerif.Props.C05
